@@ -509,6 +509,9 @@ func findCalls(fn *ssa.Function, suffix string) []CallSite {
 func returnsOf(fn *ssa.Function) []*ssa.Return {
 	var out []*ssa.Return
 	for _, b := range fn.Blocks {
+		if b == fn.Recover {
+			continue // the synthetic recover block of functions with defers: not a source-level return
+		}
 		for _, in := range b.Instrs {
 			if r, ok := in.(*ssa.Return); ok {
 				out = append(out, r)
@@ -518,9 +521,41 @@ func returnsOf(fn *ssa.Function) []*ssa.Return {
 	return out
 }
 
+// unspill resolves the load of a spilled result/local to the value stored into it earlier in the same block (go/ssa spills named
+// and unnamed results to locals in functions that use defer: `*r = v; rundefers; t = *r; return t`).
+func unspill(v ssa.Value) ssa.Value {
+	u, ok := v.(*ssa.UnOp)
+	if !ok || u.Op != token.MUL {
+		return v
+	}
+	al, ok := u.X.(*ssa.Alloc)
+	if !ok || u.Block() == nil {
+		return v
+	}
+	var last ssa.Value
+	for _, in := range u.Block().Instrs {
+		if in == ssa.Instruction(u) {
+			break
+		}
+		if st, ok := in.(*ssa.Store); ok && st.Addr == ssa.Value(al) {
+			last = st.Val
+		}
+	}
+	if last != nil {
+		return last
+	}
+	return v
+}
+
+// asConst: v (after unspilling) is a constant.
+func asConst(v ssa.Value) (*ssa.Const, bool) {
+	c, ok := unspill(v).(*ssa.Const)
+	return c, ok
+}
+
 // isNilConst reports whether v is the nil constant.
 func isNilConst(v ssa.Value) bool {
-	c, ok := v.(*ssa.Const)
+	c, ok := unspill(v).(*ssa.Const)
 	return ok && c.Value == nil
 }
 
@@ -547,6 +582,7 @@ func successReturns(fn *ssa.Function) []*ssa.Return {
 		if o == nil {
 			o = &Origin{p: nil, fn: fn, env: map[*ssa.Parameter]*Term{}, fvenv: map[*ssa.FreeVar]*Term{}, memo: map[ssa.Value]*Term{}, busy: map[ssa.Value]bool{}, NoInline: true}
 		}
+		ev = unspill(ev)
 		if definitelyError(ev, 0) {
 			continue
 		}
@@ -585,6 +621,7 @@ func definitelyError(v ssa.Value, depth int) bool {
 	if depth > 4 {
 		return false
 	}
+	v = unspill(v)
 	switch x := v.(type) {
 	case *ssa.MakeInterface:
 		// a concrete non-nil-able value boxed into error (e.g. *errors.Error loaded from a sentinel)
